@@ -9,7 +9,7 @@
 EXTENDS Integers, FiniteSets, TLC
 
 CONSTANTS Ids, MaxTasks, NWorkers,
-          Variant   \* "code"                  the tree after the fix: the wrapper, under the mutex and BEFORE the callback, runs the
+          Variant   \* "code"                  the tree after fix cf580d8: the wrapper, under the mutex and BEFORE the callback, runs the
                     \*                         callback only if it is still the tracked task of its identifier, and untracks it
                     \* "delete_after"          code before the fix: callback, then unconditional delete(identifier)
                     \* "delete_after_identity" half fix: callback, then delete only if still the tracked task
